@@ -189,7 +189,10 @@ CLAIMED = {
         "without another call; an override rename puts exactly the source's identity and content at the destination. "
         "Plan level, name mode on link-free trees: a run under stop that ends with the conflict status had a plan that "
         "was not free (stop_only_on_real_conflict), and under a free plan ignore exits 0 having renamed every file "
-        "(ignore_renames_all_free) - both via C02/C05. The remaining plan-level claims (ignore leaves only conflicting "
+        "(ignore_renames_all_free) - both via C02/C05; a single conflict followed through both passes of the pipeline "
+        "(override_run_replaces, conflict_run_stop_ignore): under override the run exits 0, reports the rename with the "
+        "override marker and the destination holds the source's identity and content while every other entry stays; "
+        "under stop it exits 1 and under ignore 0 with the tree unchanged and nothing reported. The remaining plan-level claims (ignore leaves only conflicting "
         "files unrenamed when the plan is NOT free, path/directory mode, override keeps the source's content in whole "
         "runs) are evaluated on instrumented real runs with all strategies and scripted answers, compared with the model.",
         "Trusted: Lean kernel; extraction by harness/extract.py; ASCII lower-casing; hand-written pipeline model tied by "
